@@ -253,6 +253,33 @@ def _default(value):
     raise TieBroken('main: unsupported default at line %d' % value.lineno)
 
 
+def _bridge_stmt(st, after_set_routing):
+    """`if R is None and C is not None: R = [(k1, k2, C), (k3, T, None)]` -> (R, C, k1, k2, k3, T)"""
+    def cmp_none(t, op):
+        return isinstance(t, ast.Compare) and isinstance(t.left, ast.Name) and len(t.ops) == 1 \
+            and isinstance(t.ops[0], op) and isinstance(t.comparators[0], ast.Constant) and t.comparators[0].value is None
+
+    def const(x):
+        return isinstance(x, ast.Constant) and isinstance(x.value, int) and not isinstance(x.value, bool)
+    t = st.test
+    ok = isinstance(t.op, ast.And) and len(t.values) == 2 and cmp_none(t.values[0], ast.Is) \
+        and cmp_none(t.values[1], ast.IsNot) and not st.orelse and len(st.body) == 1 \
+        and isinstance(st.body[0], ast.Assign) and len(st.body[0].targets) == 1 and not after_set_routing
+    if ok:
+        rv, cv = t.values[0].left.id, t.values[1].left.id
+        a = st.body[0]
+        v = a.value
+        ok = _is_name(a.targets[0], rv) and isinstance(v, ast.List) and len(v.elts) == 2 \
+            and all(isinstance(e, ast.Tuple) and len(e.elts) == 3 for e in v.elts)
+        if ok:
+            h1, h2 = v.elts[0].elts, v.elts[1].elts
+            ok = const(h1[0]) and const(h1[1]) and _is_name(h1[2], cv) and const(h2[0]) \
+                and isinstance(h2[1], ast.Name) and isinstance(h2[2], ast.Constant) and h2[2].value is None
+            if ok:
+                return (rv, cv, h1[0].value, h1[1].value, h2[0].value, h2[1].id)
+    raise TieBroken('main: compound "if … and …" statement at line %d is outside the grammar' % st.lineno)
+
+
 def _main(tree, intern):
     fn = None
     for st in tree.body:
@@ -366,6 +393,9 @@ def _main(tree, intern):
         elif isinstance(st, ast.Assign) and _is_call(st.value, 'pyipmi.Target') \
                 and ast.unparse(st.targets[0]) == 'ipmi.target':
             sinks['Target'] = names_of(st.value)
+        elif isinstance(st, ast.If) and isinstance(st.test, ast.BoolOp):
+            # if <routing> is None and <channel> is not None: <routing> = [(c, c, <channel>), (c, <target>, None)]
+            facts['bridge'] = _bridge_stmt(st, 'ipmi.target.set_routing' in sinks)
         elif isinstance(st, ast.If) and isinstance(st.test, ast.Compare) and isinstance(st.test.ops[0], ast.IsNot) \
                 and isinstance(st.test.left, ast.Name):
             guard = st.test.left.id
@@ -401,6 +431,10 @@ def _main(tree, intern):
         raise TieBroken('main: interface name differs between parse_interface_options and create_interface')
     if sinks['ipmi.target.set_routing'][0] != sinks['ipmi.target.set_routing'][1]:
         raise TieBroken('main: routing guard and argument differ')
+    if facts.get('bridge') is not None:
+        rv, cv, rq1, rs1, rq2, tv = facts['bridge']
+        if rv != sinks['ipmi.target.set_routing'][1] or tv != sinks['Target'][0] or cv not in var_names:
+            raise TieBroken('main: the bridging statement names other variables than Target() / set_routing()')
     if sinks['ipmi.session.set_session_type_rmcp'][0] != sinks['ipmi.session.set_session_type_rmcp'][1]:
         raise TieBroken('main: host guard and argument differ')
     if sinks['ipmi.session.set_auth_type_user'][0] != sinks['ipmi.session.set_session_type_rmcp'][0]:
@@ -968,6 +1002,42 @@ def _chassis(intern):
 
 
 # ----------------------------------------------------------------------------------- generate
+def _aardvark_guards():
+    """Aardvark.open: the guard of enable_pullups(self.i2c_pullups) / enable_target_power(self.target_power):
+    True = `is not None`, False = truthiness"""
+    tree = ast.parse(repo.read('pyipmi/interfaces/aardvark.py'))
+    fn = None
+    for st in tree.body:
+        if isinstance(st, ast.ClassDef) and st.name == 'Aardvark':
+            for m in st.body:
+                if isinstance(m, ast.FunctionDef) and m.name == 'open':
+                    fn = m
+    if fn is None:
+        raise TieBroken('Aardvark.open not found')
+    out = {}
+    for st in fn.body:
+        if not isinstance(st, ast.If):
+            continue
+        calls = [ast.unparse(s) for s in st.body]
+        for meth, attr in (('enable_pullups', 'i2c_pullups'), ('enable_target_power', 'target_power')):
+            if calls == ['self.%s(self.%s)' % (meth, attr)]:
+                t = ast.unparse(st.test)
+                if st.orelse or meth in out:
+                    raise TieBroken('Aardvark.open: %s is guarded twice / has an else branch' % meth)
+                if t == 'self.%s is not None' % attr:
+                    out[meth] = True
+                elif t == 'self.%s' % attr:
+                    out[meth] = False
+                else:
+                    raise TieBroken('Aardvark.open: guard of %s is outside the grammar: %s' % (meth, t))
+    if sorted(out) != ['enable_pullups', 'enable_target_power']:
+        raise TieBroken('Aardvark.open: guarded calls of enable_pullups / enable_target_power not found')
+    src = ast.unparse(fn)
+    if 'if self.fastmode is not None:\n        self.enable_fastmode(self.fastmode)\n    else:\n        self.enable_fastmode(False)' not in src:
+        raise TieBroken('Aardvark.open: fast mode statement changed shape')
+    return out
+
+
 def snapshot():
     tree = ast.parse(repo.read('pyipmi/ipmitool.py'))
     module_funcs = dict((st.name, st) for st in tree.body if isinstance(st, ast.FunctionDef))
@@ -991,7 +1061,7 @@ def snapshot():
                 'catch': _conv_catch(cmd_nodes, module_funcs)}
     sdr_classes, sdr_default = _sdr_classes()
     sensor_reads, sensor_lun_default = _sensor_reads(cmd_nodes, module_funcs)
-    return {'sensor_reads': sensor_reads, 'sensor_lun_default': sensor_lun_default,
+    return {'aardvark': _aardvark_guards(), 'sensor_reads': sensor_reads, 'sensor_lun_default': sensor_lun_default,
             'api': api, 'commands': cmds, 'main': main, 'chassis': chassis, 'interfaces': ifaces,
             'intern': intern, 'errors': [n for n, _ in errors], 'arg_convs': _arg_convs(cmd_nodes),
             'handlers': handlers, 'sdr_classes': sdr_classes, 'sdr_default': sdr_default}
@@ -1048,7 +1118,7 @@ def render(snap, namespace='PyIpmi.Gen.Cli', header=None):
                '  getoptExit := %d\n  noArgsExit := %d\n  noCmdExit := %d\n  ifaceErrExit := %d\n'
                '  vIface := %d\n  vIfaceOpts := %d\n  vTarget := %d\n  vRouting := %d\n'
                '  vHost := %d\n  vPort := %d\n  vUser := %d\n  vPassword := %d\n  vPriv := %d\n'
-               '  closeInside := %s }' % (
+               '  closeInside := %s%s }' % (
                    _codes(m['optstring']), m['optstring'], rules, ', '.join(m['defaults']),
                    m['facts']['getoptExit'], m['facts']['noArgsExit'], m['facts']['noCmdExit'],
                    m['facts']['ifaceErrExit'],
@@ -1058,7 +1128,14 @@ def render(snap, namespace='PyIpmi.Gen.Cli', header=None):
                    v.index(s['ipmi.session.set_session_type_rmcp'][2]),
                    v.index(s['ipmi.session.set_auth_type_user'][1]),
                    v.index(s['ipmi.session.set_auth_type_user'][2]),
-                   v.index(s['ipmi.session.set_priv_level'][1]), _bool(m['close_inside'])))
+                   v.index(s['ipmi.session.set_priv_level'][1]), _bool(m['close_inside']),
+                   '' if m['facts'].get('bridge') is None else '\n  bridge := some (%d, %d, %d, %d)' % (
+                       v.index(m['facts']['bridge'][1]), m['facts']['bridge'][2], m['facts']['bridge'][3],
+                       m['facts']['bridge'][4])))
+    out.append('')
+    out.append('/-- guards of `Aardvark.open()` around enable_pullups / enable_target_power (true: `is not None`) -/')
+    out.append('def aardvarkGuards : AardvarkGuards := ⟨%s, %s⟩' % (
+        _bool(snap['aardvark']['enable_pullups']), _bool(snap['aardvark']['enable_target_power'])))
     out.append('')
     out.append('/-- `except` clauses around `ipmi.open(); cmd(ipmi, args)` -/')
     out.append('def exits : List ExitClause := [\n' + ',\n'.join(
